@@ -283,6 +283,7 @@ macro_rules! ref_ops {
                 json!({"T": self.name, "kind": "ref",
                        "ref_unit_q": format!("{:?}", <$Q as HasRefUnit>::REF_UNIT),
                        "ref_unit_u": format!("{:?}", <$U as LinearScaledUnit>::REF_UNIT),
+                       "amnt_one": enc(quantities::AMNT_ONE), "amnt_zero": enc(quantities::AMNT_ZERO),
                        "iter_units": via_qty})
             }
             fn unit_info(&self, u: usize) -> Value {
